@@ -393,7 +393,7 @@ def run(ctx):
                          "seen under heavy machine load with qt_loop_balance_sv)" % len(transient))
     ctx.assumptions += [
         "values are Z without wrap-around: start, stop, stop + workers*chunk below 2^62 for the queue loops (size_t up to 2^64-1 for the split)",
-        "queue loops: no shepherd is disabled during the loop (qthread_shep_ok true), no qt_loop_queue_addworker; iq->step >= 1 for TIMED",
+        "queue loops in the base tiers: no shepherd is disabled during the loop, no qt_loop_queue_addworker (both are covered by the disable tier, Loops/CompletionQDisable.v); iq->step >= 1 for TIMED",
         "sequential consistency; plain reads of iq->start/phase are single accesses",
         "third clause (loop_returns_after_all*): full/empty cells, sinc and donecount are abstract in Loops/Completion.v (readFF passes only a "
         "full cell, the runtime's writeEF fills only an empty cell, qthread_spawn empties the return cell, one signal per task); that the real "
